@@ -310,17 +310,25 @@ impl Topic {
     { unimplemented!() }
 
     // topics/consumer_groups.rs (C06/C08): lookup of a group by numeric id or by name — a function of the topic
+    // LINKED (topic_group INTERPRETED as the catalogue lookup): units/catalogue_maps/lemmas.rs, harness [C06.link.consumer_offsets.get_consumer_group]
+    // (mirror edits there). The `requires` was ADDED by the link: the real function `unwrap()`s `identifier.get_u32_value()`
+    // (topics/consumer_groups.rs:38) and panics on a numeric identifier that is not 4 bytes long (catalogue_maps' `ident_valid`; implied by ident_wf).
     #[verifier::external_body]
     pub fn get_consumer_group(&self, identifier: &Identifier) -> (r: Result<&ConsumerGroup, IggyError>)
+        requires identifier.kind == IdKind::Numeric ==> identifier.length == 4,
         ensures match r { Ok(g) => topic_group(self, *identifier) == Some(*g), Err(_) => topic_group(self, *identifier) is None },
     { unimplemented!() }
 }
 impl ConsumerGroup {
     // advances the member's round-robin position (interior mutability): nothing assumed about the result
+    // (link pass 2: no contract, nothing to link. The real function — unit consumer_group, [C08.poll.total] — is proved panic-free under
+    //  group_wf, the invariant of every group history: `partition_index + 1` of the member's cursor must not overflow.)
     #[verifier::external_body]
     pub fn calculate_partition_id(&self, member_id: u32) -> (r: Result<Option<u32>, IggyError>)
     { unimplemented!() }
     // reads the member's current partition: a function of the group state
+    // LINKED: units/consumer_group/lemmas.rs, harness [C08.link.consumer_offsets.get_current_partition_id] (mirror edits there); the link
+    // INTERPRETS cg_current over the real member table: Ok(member.current_partition_id), Err(ConsumerGroupMemberNotFound(..)) for a non-member
     #[verifier::external_body]
     pub fn get_current_partition_id(&self, member_id: u32) -> (r: Result<Option<u32>, IggyError>)
         ensures r == cg_current(self, member_id),
